@@ -25,7 +25,7 @@ inductive I where
   | reflect : I
   | disp (name : String) : I
   | prio (tag : Option String) (subs : List I) : I
-  | memo (base : I) : I
+  | memo (cid : Nat) (shared : Bool) (base : I) : I
   | tape (old : I) : I
   | subst (live : Bool) (base : I) : I
   deriving Repr, Inhabited
@@ -55,7 +55,7 @@ def I.isTotal : I → Bool
   | .reflect => true
   | .disp _ => false
   | .prio _ l => anyTotal l
-  | .memo b => b.isTotal
+  | .memo _ _ b => b.isTotal
   | .tape _ => false
   | .subst _ b => b.isTotal
 def anyTotal : List I → Bool
@@ -111,62 +111,137 @@ structure Env where
   /-- the probe has a fresh variable named by the substitution (its `eager_subs` is called) -/
   substK : K → Bool
 
+/-! ### Memoize caches as explicit state -/
+
+mutual
+/-- structural equality of interpretation objects (sound: `Props.C17.beq_eq`) -/
+def I.beq : I → I → Bool
+  | .reflect, .reflect => true
+  | .disp a, .disp b => a == b
+  | .prio t l, .prio t' l' => t == t' && beqList l l'
+  | .memo c s b, .memo c' s' b' => c == c' && s == s' && I.beq b b'
+  | .tape o, .tape o' => I.beq o o'
+  | .subst l b, .subst l' b' => l == l' && I.beq b b'
+  | _, _ => false
+def beqList : List I → List I → Bool
+  | [], [] => true
+  | x :: xs, y :: ys => I.beq x y && beqList xs ys
+  | _, _ => false
+end
+
+/-- one entry of a Memoize cache: key = `make_hash_key(cls, *args)` = the probe (kind, token),
+    value = the cached result, identified by the leaf whose rule produced it -/
+structure CEntry where
+  k : K
+  tok : Nat
+  h : String
+  deriving Repr, Inhabited
+
+/-- One cache dict.  A dict created by `memoize()` without `cache=` is reachable only through the
+    Memoize object made at that entry, so it is identified by that object (`cid`, `base`); a dict
+    passed explicitly (`memoize(cache=d)`) is identified by the user's dict `cid` alone, whatever
+    base it is used under (`shared = true`). -/
+structure CRec where
+  cid : Nat
+  shared : Bool
+  base : I
+  entries : List CEntry
+  deriving Repr, Inhabited
+
+abbrev Caches := List CRec
+
+def CRec.isFor (r : CRec) (cid : Nat) (sh : Bool) (b : I) : Bool :=
+  r.cid == cid && r.shared == sh && (sh || r.base.beq b)
+
+def findEntry (es : List CEntry) (k : K) (tok : Nat) : Option String :=
+  match es with
+  | [] => none
+  | e :: r => if e.k == k && e.tok == tok then some e.h else findEntry r k tok
+
+/-- `self.cache.get(key)` -/
+def cacheGet (cs : Caches) (cid : Nat) (sh : Bool) (b : I) (k : K) (tok : Nat) : Option String :=
+  match cs with
+  | [] => none
+  | r :: rs => if r.isFor cid sh b then findEntry r.entries k tok else cacheGet rs cid sh b k tok
+
+/-- `self.cache[key] = value` -/
+def cachePut (cs : Caches) (cid : Nat) (sh : Bool) (b : I) (k : K) (tok : Nat) (h : String) : Caches :=
+  match cs with
+  | [] => [⟨cid, sh, b, [⟨k, tok, h⟩]⟩]
+  | r :: rs =>
+    if r.isFor cid sh b then { r with entries := ⟨k, tok, h⟩ :: r.entries } :: rs
+    else r :: cachePut rs cid sh b k tok h
+
 /-! ### interpreting one probe term -/
 
 structure IRes where
   out : Outcome
   stack : Stack
-  /-- the rule that produced the value (leaf name) and the stack at the moment it fired -/
+  /-- the rule that produced the value (leaf name) and the stack at the moment it fired
+      (for a cache hit: the leaf that produced the cached value, and the current stack) -/
   fired : Option (String × Stack)
+  caches : Caches
+  /-- the value came out of a Memoize cache (no rule fired) -/
+  hit : Bool
   deriving Inhabited
 
 /-- `with i: body` on the interpretation *object* `i` (`__exit__` pops unconditionally and returns
     None, so the body's exception propagates). -/
-def withObj (i : I) (s : Stack) (body : Stack → IRes) : IRes :=
+def withObj (i : I) (s : Stack) (cs : Caches) (body : Stack → IRes) : IRes :=
   match enterI i s with
-  | .error e => ⟨.exc e, s, none⟩
+  | .error e => ⟨.exc e, s, none, cs, false⟩
   | .ok s1 =>
     let r := body s1
     match pop? r.stack with
-    | none => ⟨.exc .emptyStack, r.stack, r.fired⟩
-    | some s2 => ⟨r.out, s2, r.fired⟩
+    | none => ⟨.exc .emptyStack, r.stack, r.fired, r.caches, r.hit⟩
+    | some s2 => ⟨r.out, s2, r.fired, r.caches, r.hit⟩
 
 mutual
-/-- `i.interpret(cls, *args)` for probe kind `k`, current stack `s`. -/
-def interp (env : Env) (k : K) (armed : Bool) : I → Stack → IRes
-  | .reflect, s => ⟨.normal, s, some ("reflect", s)⟩
-  | .disp n, s =>
+/-- `i.interpret(cls, *args)` for the probe term (kind `k`, token `tok`: the same kind and token give
+    the same class and arguments, hence the same Memoize key), current stack `s`, caches `cs`. -/
+def interp (env : Env) (k : K) (tok : Nat) (armed : Bool) : I → Stack → Caches → IRes
+  | .reflect, s, cs => ⟨.normal, s, some ("reflect", s), cs, false⟩
+  | .disp n, s, cs =>
       if env.rules n k then
-        ⟨if armed && env.raises n then .exc .probe else .normal, s, some (n, s)⟩
-      else ⟨.normal, s, none⟩
-  | .prio _ l, s => interpList env k armed l s
-  | .memo b, s => interp env k armed b s            -- cache miss (probes are fresh)
-  | .tape old, s =>
+        ⟨if armed && env.raises n then .exc .probe else .normal, s, some (n, s), cs, false⟩
+      else ⟨.normal, s, none, cs, false⟩
+  | .prio _ l, s, cs => interpList env k tok armed l s cs
+  | .memo cid sh b, s, cs =>
+      -- Memoize.interpret: value = cache.get(key); if value is None: cache[key] = value = base.interpret(…)
+      match cacheGet cs cid sh b k tok with
+      | some h => ⟨.normal, s, some (h, s), cs, true⟩
+      | none =>
+        let r := interp env k tok armed b s cs
+        match r.out, r.fired with
+        | .normal, some (h, _) => ⟨r.out, r.stack, r.fired, cachePut r.caches cid sh b k tok h, r.hit⟩
+        | _, _ => r
+  | .tape old, s, cs =>
       -- adjoint.py:45-65
-      let r := if env.adjointOp k then withObj old s (fun s1 => interp env k armed old s1)
-               else interp env k armed old s
+      let r := if env.adjointOp k then withObj old s cs (fun s1 => interp env k tok armed old s1 cs)
+               else interp env k tok armed old s cs
       match r.out with
       | .normal =>
-        let r2 := withObj old r.stack (fun s1 => ⟨.normal, s1, none⟩)   -- reflect.interpret(cls, *lazy_args)
-        ⟨r2.out, r2.stack, r.fired⟩
+        -- reflect.interpret(cls, *lazy_args)
+        let r2 := withObj old r.stack r.caches (fun s1 => ⟨.normal, s1, none, r.caches, false⟩)
+        ⟨r2.out, r2.stack, r.fired, r.caches, r.hit⟩
       | .exc _ => r
-  | .subst live b, s =>
+  | .subst live b, s, cs =>
       -- terms.py:64-72 (`live`: its `subs` names the probe's fresh variable)
-      withObj b s (fun s1 =>
-        let r := interp env k armed b s1
+      withObj b s cs (fun s1 =>
+        let r := interp env k tok armed b s1 cs
         match r.out with
         | .normal =>
           if live && env.substK k then
-            ⟨if armed then .exc .probe else .normal, r.stack, some ("subst", r.stack)⟩
+            ⟨if armed then .exc .probe else .normal, r.stack, some ("subst", r.stack), r.caches, false⟩
           else r
         | .exc _ => r)
 /-- `PrioritizedInterpretation.interpret`: first sub-interpretation returning non-None. -/
-def interpList (env : Env) (k : K) (armed : Bool) : List I → Stack → IRes
-  | [], s => ⟨.normal, s, none⟩
-  | x :: xs, s =>
-      let r := interp env k armed x s
+def interpList (env : Env) (k : K) (tok : Nat) (armed : Bool) : List I → Stack → Caches → IRes
+  | [], s, cs => ⟨.normal, s, none, cs, false⟩
+  | x :: xs, s, cs =>
+      let r := interp env k tok armed x s cs
       match r.out, r.fired with
-      | .normal, none => interpList env k armed xs r.stack
+      | .normal, none => interpList env k tok armed xs r.stack r.caches
       | _, _ => r
 end
 
@@ -176,7 +251,7 @@ def handler (env : Env) (k : K) : I → Option String
   | .reflect => some "reflect"
   | .disp n => if env.rules n k then some n else none
   | .prio _ l => handlerList env k l
-  | .memo b => handler env k b
+  | .memo _ _ b => handler env k b
   | .tape old => handler env k old
   | .subst live b => if live && env.substK k then some "subst" else handler env k b
 def handlerList (env : Env) (k : K) : List I → Option String
@@ -191,7 +266,8 @@ end
 /-- An interpretation *expression*, evaluated when the block is entered. -/
 inductive Ctx where
   | named (n : String)   -- a module-level / user-defined interpretation object
-  | memoize              -- `funsor.interpretations.memoize()` (generator-based context manager)
+  | memoize              -- `funsor.interpretations.memoize()` (generator-based context manager; fresh cache)
+  | memoShared (c : Nat) -- `memoize(cache=d_c)`: the user's own dict `d_c`, possibly used under several bases
   | tape                 -- `AdjointTape()`
   | subst (live : Bool)  -- `SubstituteInterpretation(subs, get_interpretation())`: `live` = the one pushed
                          -- by `terms.substitute` for the probe at hand; `false` = one with unrelated subs
@@ -200,7 +276,7 @@ inductive Ctx where
 inductive Prog where
   | skip
   | obs                                  -- look at `_STACK`
-  | probe (k : K) (armed : Bool)         -- build a probe term (armed: a harness rule raises)
+  | probe (k : K) (armed : Bool) (tok : Nat)   -- build the probe term (k, tok) (armed: a harness rule raises)
   | raise                                -- `raise ProbeError`
   | withI (c : Ctx) (body : Prog)        -- `with c: body`
   | deco (c : Ctx) (body : Prog)         -- `@c def f(): body` ; `f()`   (ContextDecorator)
@@ -210,65 +286,74 @@ inductive Prog where
 
 inductive Obs where
   | at (s : Stack)
-  | probe (k : K) (handler : Option String) (s : Stack)
+  /-- `top`: the interpretation that was asked; `ok`: the construction returned; `hit`: from a cache -/
+  | probe (k : K) (handler : Option String) (s : Stack) (hit : Bool) (top : I) (ok : Bool)
   deriving Repr, Inhabited
 
 def Obs.stack : Obs → Stack
   | .at s => s
-  | .probe _ _ s => s
+  | .probe _ _ s _ _ _ => s
 
 structure St where
   stack : Stack
   log : List Obs       -- newest first
+  caches : Caches := []
+  next : Nat := 0      -- next fresh cache id
   deriving Inhabited
 
-/-- The object a context expression denotes at entry time. -/
-def ctxObj (env : Env) (c : Ctx) (s : Stack) : Except Err I :=
+/-- The object a context expression denotes at entry time (and the next fresh cache id). -/
+def ctxObj (env : Env) (c : Ctx) (s : Stack) (next : Nat) : Except Err (I × Nat) :=
   match c with
   | .named n => match env.named n with
-    | some i => .ok i
+    | some i => .ok (i, next)
     | none => .error .unknownName
-  | .memoize => match top? s with        -- base_interpretation = get_interpretation()
-    | some t => .ok (.memo t)
+  | .memoize => match top? s with        -- base_interpretation = get_interpretation(); cache = {}
+    | some t => .ok (.memo next false t, next + 1)
+    | none => .error .emptyStack
+  | .memoShared c => match top? s with   -- base_interpretation = get_interpretation(); cache = d_c
+    | some t => .ok (.memo c true t, next)
     | none => .error .emptyStack
   | .tape => match top? s with           -- self._old_interpretation = interpreter.get_interpretation()
-    | some t => .ok (.tape t)
+    | some t => .ok (.tape t, next)
     | none => .error .emptyStack
   | .subst live => match top? s with
-    | some t => .ok (.subst live t)
+    | some t => .ok (.subst live t, next)
     | none => .error .emptyStack
 
-def enter (env : Env) (c : Ctx) (s : Stack) : Except Err Stack :=
-  match ctxObj env c s with
+def enter (env : Env) (c : Ctx) (s : Stack) (next : Nat) : Except Err (Stack × Nat) :=
+  match ctxObj env c s next with
   | .error e => .error e
-  | .ok i => enterI i s
+  | .ok (i, n) => match enterI i s with
+    | .error e => .error e
+    | .ok s1 => .ok (s1, n)
 
 def exec (env : Env) : Prog → St → Outcome × St
   | .skip, st => (.normal, st)
   | .obs, st => (.normal, { st with log := .at st.stack :: st.log })
   | .raise, st => (.exc .probe, st)
-  | .probe k armed, st =>
+  | .probe k armed tok, st =>
       match top? st.stack with
       | none => (.exc .emptyStack, st)
       | some t =>
-        let r := interp env k armed t st.stack
+        let r := interp env k tok armed t st.stack st.caches
+        let ok := match r.out with | .normal => true | .exc _ => false
         let o : Obs := match r.fired with
-          | some (h, fs) => .probe k (some h) fs
-          | none => .probe k none st.stack
-        (r.out, { stack := r.stack, log := o :: st.log })
+          | some (h, fs) => .probe k (some h) fs r.hit t ok
+          | none => .probe k none st.stack false t ok
+        (r.out, { st with stack := r.stack, log := o :: st.log, caches := r.caches })
   | .withI c body, st =>
-      match enter env c st.stack with
+      match enter env c st.stack st.next with
       | .error e => (.exc e, st)
-      | .ok s1 =>
-        let (o, st2) := exec env body { st with stack := s1 }
+      | .ok (s1, n) =>
+        let (o, st2) := exec env body { st with stack := s1, next := n }
         match pop? st2.stack with
         | none => (.exc .emptyStack, st2)
         | some s3 => (o, { st2 with stack := s3 })
   | .deco c body, st =>
-      match enter env c st.stack with
+      match enter env c st.stack st.next with
       | .error e => (.exc e, st)
-      | .ok s1 =>
-        let (o, st2) := exec env body { st with stack := s1 }
+      | .ok (s1, n) =>
+        let (o, st2) := exec env body { st with stack := s1, next := n }
         match pop? st2.stack with
         | none => (.exc .emptyStack, st2)
         | some s3 => (o, { st2 with stack := s3 })
@@ -288,7 +373,8 @@ def I.canon : I → String
   | .disp n => n
   | .prio (some t) _ => t
   | .prio none l => "[" ++ canonList l ++ "]"
-  | .memo b => "memo(" ++ b.canon ++ ")"
+  | .memo _ false b => "memo(" ++ b.canon ++ ")"
+  | .memo c true b => "memoS" ++ toString c ++ "(" ++ b.canon ++ ")"
   | .tape o => "tape(" ++ o.canon ++ ")"
   | .subst true b => "subst(" ++ b.canon ++ ")"
   | .subst false b => "subst0(" ++ b.canon ++ ")"
@@ -304,9 +390,9 @@ def canonStack (s : Stack) : String := ",".intercalate (s.map I.canon)
     `MarkS.eager_subs`); for funsor's built-in rules only the handler is compared. -/
 def Obs.canon (observable : String → Bool) : Obs → String
   | .at s => "@" ++ canonStack s
-  | .probe k none _ => "?" ++ k ++ "=-@*"
-  | .probe k (some h) s =>
-      "?" ++ k ++ "=" ++ h ++ "@" ++ (if observable h then canonStack s else "*")
+  | .probe k none _ _ _ _ => "?" ++ k ++ "=-@*"
+  | .probe k (some h) s hit _ _ =>
+      "?" ++ k ++ "=" ++ h ++ "@" ++ (if observable h then (if hit then "cached" else canonStack s) else "*")
 
 def Err.canon : Err → String
   | .emptyStack => "IndexError"
